@@ -14,10 +14,10 @@ import units, C03, C04, C08, smoother
 
 RACE_PRELUDE = r"""
 /* ---- ghost state of the race check ---- */
-#define RACE_NARR 8
+#define RACE_NARR 9
 static int race_owner[RACE_NARR][RACE_MAXN], race_reader[RACE_NARR][RACE_MAXN];
 static int race_task, race_next; static _Bool race_in_region;
-enum { x_id = 0, temp_id = 1, result_id = 2, rhs_id = 3, solver_circle_id = 4, solver_radial_id = 5, scratch_id = 6, matrix_id = 7 };
+enum { x_id = 0, temp_id = 1, result_id = 2, rhs_id = 3, solver_circle_id = 4, solver_radial_id = 5, scratch_id = 6, matrix_id = 7, shared_scalar_id = 8 };
 enum { x_mode = 0, temp_mode = 1, result_mode = 1, rhs_mode = 0 };       /* 1: every subscript is (also) a write; 0: read only */
 static void race_access(int arr, int idx, int is_write) {
     if (!race_in_region || race_task == 0) return;          /* sequential part or thread-private prologue of the region */
@@ -55,6 +55,32 @@ RACE_SOLVES = r"""
 """
 
 
+DECL_RE = re.compile(r"\b(?:const\s+)?(?:unsigned\s+|long\s+)*(?:double|int|bool|size_t|auto|real_t|float|char|_Bool)\s*[&*]?\s*(\w+)\s*(?==|;|\[|,|\)|:)")
+ASSIGN_RE = re.compile(r"(?:(?<=[;{}])|^)(\s*)([A-Za-z_]\w*)(\s*(?:=(?!=)|\+=|-=|\*=|/=|\+\+|--))", re.M)
+
+
+def shared_scalar_writes(region, clause, rules, fname):
+    """A scalar declared OUTSIDE a parallel region and assigned inside it is shared between the threads (unless a private /
+    firstprivate / lastprivate / reduction clause names it): every such assignment becomes a ghost write of the variable, so the
+    usual rule (no two iterations of one phase write the same object) decides whether it is a race."""
+    declared = set(DECL_RE.findall(region))
+    private = set()
+    for m in re.finditer(r"\b(?:private|firstprivate|lastprivate|reduction)\s*\(([^)]*)\)", clause):
+        private.update(x.strip() for x in m.group(1).split(":")[-1].split(","))
+    names = {}
+
+    def rep(m):
+        v = m.group(2)
+        if v in declared or v in private or v in ("return", "else", "case", "default", "break", "continue") or v.isupper():
+            return m.group(0)
+        k = names.setdefault(v, len(names))
+        return "%srace_access(shared_scalar_id, %d, 1), %s%s" % (m.group(1), k, v, m.group(3))
+    out = ASSIGN_RE.sub(rep, region)
+    if names:
+        rules.log.append(("R9'.shared_scalar_assignments(%s: %s)" % (fname, ",".join(sorted(names))), len(names)))
+    return out
+
+
 def omp_to_ghost(body, rules, fname):
     """R9': pragma structure -> ghost statements (the pragmas themselves are removed by R9 afterwards)."""
     out, pos, n = [], 0, {"for": 0, "nowait": 0, "parallel": 0}
@@ -77,7 +103,8 @@ def omp_to_ghost(body, rules, fname):
             bc = match_close(text, bo, "{", "}")
             head = ("RACE_REGION_BEGIN(); " if combined else "")
             tail = " RACE_TASK_END(); }" + ("" if nowait else " RACE_PHASE_END();") + (" RACE_REGION_END();" if combined else "")
-            text = text[:m.start()] + head + text[m.end():bo + 1] + " RACE_TASK_BEGIN();" + text[bo + 1:bc] + tail + text[bc + 1:]
+            inner = shared_scalar_writes(text[bo + 1:bc], kind, rules, fname) if combined else text[bo + 1:bc]
+            text = text[:m.start()] + head + text[m.end():bo + 1] + " RACE_TASK_BEGIN();" + inner + tail + text[bc + 1:]
             n["for"] += 1
             n["nowait"] += 1 if nowait else 0
             pos = m.start()
@@ -86,7 +113,9 @@ def omp_to_ghost(body, rules, fname):
             if text[m.end():bo].strip():
                 raise ExtractError("%s: parallel region is not a block" % fname)
             bc = match_close(text, bo, "{", "}")
-            text = text[:m.start()] + text[m.end():bo + 1] + " RACE_REGION_BEGIN();" + text[bo + 1:bc] + " RACE_REGION_END(); }" + text[bc + 1:]
+            inner = shared_scalar_writes(text[bo + 1:bc], kind, rules, fname)
+            text = text[:m.start()] + text[m.end():bo + 1] + " RACE_REGION_BEGIN();" + inner + " RACE_REGION_END(); }" + text[bc + 1:]
+            bc = bo + 1 + len(" RACE_REGION_BEGIN();") + len(inner)
             n["parallel"] += 1
             pos = m.start()
         elif kind.startswith("barrier"):
